@@ -50,7 +50,8 @@ def native(ty: Ty, rng, depth=0, hashable=False):
     if k == 'datetime': return ch(DATETIMES)
     if k == 'path': return _PATH[ty.x['cls']](ch(('a/b', '/abs/p', '.', 'x.txt', 'sp ace/ü')))
     if k == 'pattern':
-        return re.compile(ch((b'ab+', b'', b'x.y'))) if ty.x.get('of') == 'bytes' else re.compile(ch(('abc', 'a+b*', '', r'\d{2,3}')))
+        flags = ch((0, 0, 0, re.I, re.M | re.S, re.X))      # flags handed to re.compile() rather than written in the pattern
+        return re.compile(ch((b'ab+', b'', b'x.y')), flags) if ty.x.get('of') == 'bytes' else re.compile(ch(('abc', 'a+b*', '', r'\d{2,3}', '(?i)ab')), flags)
     if k == 'any':
         return ch((5, 'x', None, 2.5, True, b'b')) if hashable else ch((5, 'x', None, 2.5, True, [1, 'a'], {'k': [1]}, (1, 2)))
     if k == 'cc':
